@@ -1,5 +1,6 @@
 import Model.Versioned
 import Proofs.Versioned
+import Proofs.VersionedCow
 /-!
 # C11 — Versioned-zone readers see one immutable snapshot; version retention is sound
 
@@ -143,6 +144,47 @@ theorem open_latest_pins_newest (ops : List Op) (h : Nat) (hfresh : findReader (
     cases hf : (reach ops).readers.find? (fun r => decide (r.1 = h)) with
     | some r => rw [hf] at hfresh; simp at hfresh
     | none => simp
+
+/-! ## snapshot isolation by the copy-on-write mechanism
+
+In the retention model above versions are persistent values.  Here they are not: `Model.Versioned.CowState` has a
+heap of node cells shared between versions, a write hits a cell whoever points to it, and what keeps snapshots apart
+is only the bookkeeping of the code — `WritableVersion.changed`, `_maybe_cow_with_name` (copy unless the name is
+already in `changed`), `delete_node`, B-tree `update_glue_flag` (copy every re-flagged name and add *that name* to
+`changed`), and `ImmutableVersion.__init__` (new immutable node for every changed name). -/
+
+/-- "observes exactly the content of its version for its whole life, no matter how many commits happen meanwhile,
+and everything reachable from it is immutable", by mechanism: after **any** sequence of transactions (begin /
+replacement begin, puts, node deletes, glue re-flagging of arbitrary name lists, commit, empty commit, rollback),
+(1) every node of every committed version is a frozen cell, and (2) whatever further operations follow, every
+version committed so far is still there, in order, and shows exactly the same name ↦ content view. -/
+theorem snapshot_isolated_by_cow (ops more : List CowOp) :
+    (∀ m ∈ (cowRun cowInit ops).versions, ∀ p ∈ m, FrozenAt (cowRun cowInit ops).heap p.2) ∧
+    (cowRun cowInit ops).versions <+: (cowRun (cowRun cowInit ops) more).versions ∧
+    ∀ m ∈ (cowRun cowInit ops).versions,
+      view (cowRun (cowRun cowInit ops) more).heap m = view (cowRun cowInit ops).heap m := by
+  have h := (cow_run cowInit ops cowInv_init).1
+  have h2 := cow_run (cowRun cowInit ops) more h
+  exact ⟨fun m hm p hp => (h.frozen m hm p hp).2, h2.2.1, h2.2.2⟩
+
+/-- the writer-side invariant that makes it work (the thing a wrong `changed.add` breaks): in an open write
+transaction a changed name has a node of its own, allocated in this transaction, and an unchanged name still points
+to the frozen node of the version it was copied from. -/
+theorem writer_nodes_private_or_frozen (ops : List CowOp) (x : Writer) (hx : (cowRun cowInit ops).w = some x) :
+    ∀ p ∈ x.nodes, (p.1 ∈ x.changed ∧ x.base ≤ p.2) ∨ (p.1 ∉ x.changed ∧ FrozenAt (cowRun cowInit ops).heap p.2) := by
+  intro p hp
+  have h := ((cow_run cowInit ops cowInv_init).1.writer x hx).1.2 p hp
+  rcases h.2 with h1 | ⟨h1, _, h3⟩
+  · exact Or.inl h1
+  · exact Or.inr ⟨h1, h3⟩
+
+-- version 2 = {a ↦ 5, b ↦ 6}; a later transaction rewrites a, re-flags b (glue) and deletes nothing: version 2 still shows 5 and 6
+example : view (cowRun cowInit [.begin true, .put 1 5, .put 2 6, .commit, .begin false, .put 1 7, .flip [2] 9, .commit]).heap
+    [(1, 3), (2, 2)] = [(1, 5), (2, 6)] := by decide
+example : (cowRun cowInit [.begin true, .put 1 5, .put 2 6, .commit]).versions = [[], [(1, 3), (2, 2)]] := by decide
+example : (view (cowRun cowInit [.begin true, .put 1 5, .put 2 6, .commit, .begin false, .put 1 7, .flip [2] 9, .commit]).heap
+    ((cowRun cowInit [.begin true, .put 1 5, .put 2 6, .commit, .begin false, .put 1 7, .flip [2] 9, .commit]).versions.getLast?.getD []))
+    = [(1, 7), (2, 9)] := by decide
 
 /-! ## the hypotheses are satisfiable; the clauses are not vacuous -/
 
